@@ -24,6 +24,16 @@ ASSUMPTIONS = ["handedness of the tilt angle is taken from the implementation on
                "numpy backend only"]
 
 
+_SHARED = []
+
+
+def _shared_backend():
+    from acryo.backend import Backend
+    if not _SHARED:
+        _SHARED.append(Backend())
+    return _SHARED[0]
+
+
 def masks_from_entry_points(R, tilt, shape, axis):
     """name -> boolean array"""
     from acryo.tilt import single_axis
@@ -38,6 +48,8 @@ def masks_from_entry_points(R, tilt, shape, axis):
     if axis == "y":
         be = Backend()
         out["backend"] = be.asnumpy(be.missing_wedge_mask(R, tilt, shape))
+        sb = _shared_backend()  # one long-lived Backend object: helpers cached per backend are re-used
+        out["backend[shared]"] = sb.asnumpy(sb.missing_wedge_mask(R, tilt, shape))
         out["utils"] = _utils.missing_wedge_mask(R, tilt, shape)
         quat = R.as_quat()
         tmpl = np.ones(shape, dtype=np.float32)
@@ -93,6 +105,21 @@ def judge(d):
             im = float(np.abs(back.imag).max())
             if not im <= 1e-5 * float(np.abs(img).max()):
                 out.append(viol(f"C08/not-real:{name}", f"{name}: masking a real image gives imag part {im:.3g}"))
+    # repeated / interleaved calls (cached helpers must not carry state between calls)
+    R2 = gen.rot(d["rot2"]) if "rot2" in d else R.inv()
+    t2 = tuple(d["tilt2"])
+    kept2, tie2 = ref.wedge_reference(R2, t2, shape, axis)
+    other = masks_from_entry_points(R2, t2, shape, axis)
+    for name, m in other.items():
+        if m.shape == shape and ((m.astype(bool) != kept2) & ~tie2).any():
+            out.append(viol(f"C08/geometry-second-call:{name}",
+                            f"{name}: second call on the same shape (tilt={t2}) differs from the rule on "
+                            f"{int(((m.astype(bool) != kept2) & ~tie2).sum())} bins (shape={shape})"))
+    again = masks_from_entry_points(R, tilt, shape, axis)
+    for name, m in again.items():
+        if name in masks and not np.array_equal(m, masks[name]):
+            out.append(viol(f"C08/repeat-call-differs:{name}",
+                            f"{name}: the same call gave a different mask the third time (shape={shape})"))
     # pairwise equality of entry points (non-tie bins)
     names = sorted(k for k, v in masks.items() if v.shape == shape)
     for a, b in itertools.combinations(names, 2):
@@ -176,7 +203,8 @@ def tilts(draw):
 
 @st.composite
 def cases(draw):
-    return {"shape": draw(gen.box_shapes(1, 12)), "rot": draw(gen.rotvecs()), "tilt": draw(tilts()),
+    return {"shape": draw(gen.box_shapes(1, 12)), "rot": draw(gen.rotvecs()), "rot2": draw(gen.rotvecs()),
+            "tilt": draw(tilts()),
             "tilt2": draw(tilts()), "axis": draw(st.sampled_from(["y", "y", "x"])), "seed": draw(gen.seeds)}
 
 
